@@ -78,21 +78,17 @@ func zzEffectInput() []*tree.Tree {
 	return res
 }
 
-// one run of the command body on fresh input; returns what it wrote and whether it failed
-func zzEffectRun(c *cobra.Command, dir string) (string, bool) {
+// one run of the command line through cobra's own Execute (parsing, flag
+// groups, required flags, argument validation, PersistentPreRun, RunE/Run) on
+// fresh input; returns what the command wrote and whether it failed
+func zzEffectRun(args []string, dir string, stdinDefault bool) (string, bool) {
 	zzTrees = zzEffectInput()
 	zzRefTree = zzEffectInput()[1]
 	zzErrAt = -1
-	var err error
-	run := func() {
-		if c.RunE != nil {
-			err = c.RunE(c, nil)
-		} else {
-			c.Run(c, nil)
-		}
-	}
+	RootCmd.SilenceUsage, RootCmd.SilenceErrors = true, true
+	RootCmd.SetArgs(args)
 	if sxSymbolic() {
-		run()
+		err := RootCmd.Execute()
 		return sxOutput(), err != nil
 	}
 	var sb strings.Builder
@@ -102,9 +98,18 @@ func zzEffectRun(c *cobra.Command, dir string) (string, bool) {
 	os.WriteFile(dir+"/in.nw", []byte(sb.String()), 0o644)
 	os.WriteFile(dir+"/ref.nw", []byte(zzRefTree.Newick()+"\n"), 0o644)
 	os.Remove(dir + "/out.txt")
-	run()
+	// standard input holds the input trees, standard output goes to a file
+	oldIn, oldOut := os.Stdin, os.Stdout
+	in, _ := os.Open(dir + "/in.nw")
+	so, _ := os.Create(dir + "/stdout.txt")
+	os.Stdin, os.Stdout = in, so
+	err := RootCmd.Execute()
+	os.Stdin, os.Stdout = oldIn, oldOut
+	in.Close()
+	so.Close()
 	b, _ := os.ReadFile(dir + "/out.txt")
-	return string(b), err != nil
+	b2, _ := os.ReadFile(dir + "/stdout.txt")
+	return string(b) + string(b2), err != nil
 }
 
 // H_C19_effect: for the commands listed above and each of their options
@@ -123,9 +128,10 @@ func H_C19_effect() {
 	sxDebug("pair", ref.path+" --"+ref.flag)
 	f := ref.c.Flags().Lookup(ref.flag)
 	sxAssert(f != nil, "option registered")
-	// every option that names an input or output is pointed at the stubs / the
-	// temporary files, for both runs alike (their effective default is C19's
-	// registration check)
+	if t := f.Value.Type(); strings.HasSuffix(t, "Slice") || strings.HasSuffix(t, "Array") {
+		sxReach("list-option") // the help text shows [] for an empty list, which is not a value one can pass
+		return
+	}
 	dir := ""
 	in, in2, out := "in", "ref", "out"
 	if !sxSymbolic() {
@@ -136,53 +142,69 @@ func H_C19_effect() {
 		defer os.RemoveAll(d)
 		dir, in, in2, out = d, d+"/in.nw", d+"/ref.nw", d+"/out.txt"
 	}
+	// the command line: the command's words, then every option that names an
+	// input or output file (other than the option under test) pointed at the
+	// stubs / temporary files, then the context options
+	args := strings.Fields(ref.path)[1:]
 	fileOpt := map[string]string{"input": in, "reftree": in, "ref": in, "compared": in2, "comp": in2, "output": out, "intree": in, "graft": in2}
-	if _, isFile := fileOpt[ref.flag]; isFile {
-		sxReach("file-option")
-		return
+	var names []string
+	ref.c.Flags().VisitAll(func(g *pflag.Flag) { names = append(names, g.Name) })
+	sort.Strings(names)
+	for _, n := range names {
+		if v, ok := fileOpt[n]; ok && n != ref.flag {
+			args = append(args, "--"+n+"="+v)
+		}
 	}
-	ref.c.Flags().VisitAll(func(g *pflag.Flag) {
-		if v, ok := fileOpt[g.Name]; ok {
-			g.Value.Set(v)
+	// context: nothing else given; or one other option given explicitly with its
+	// documented default; or one other boolean switched on; or (numctx) one other
+	// numeric option at twice its default
+	var others, bools, nums []string
+	for _, n := range names {
+		g := ref.c.Flags().Lookup(n)
+		t := g.Value.Type()
+		if n == ref.flag || n == "help" || strings.HasSuffix(t, "Slice") || strings.HasSuffix(t, "Array") {
+			continue
 		}
-	})
-	// context: the other options at their defaults, or one other boolean option switched on
-	var bools []string
-	ref.c.Flags().VisitAll(func(g *pflag.Flag) {
-		if g.Value.Type() == "bool" && g.Name != ref.flag && g.Name != "help" {
-			bools = append(bools, g.Name)
+		if _, isFile := fileOpt[n]; isFile {
+			continue
 		}
-	})
-	sort.Strings(bools)
-	if ctx := sxChoose("context", 1+len(bools)); ctx > 0 {
-		sxAssert(ref.c.Flags().Set(bools[ctx-1], "true") == nil, "boolean option accepts true")
-		sxDebug("with", "--"+bools[ctx-1])
+		others = append(others, n)
+		if t == "bool" {
+			bools = append(bools, n)
+		}
+		if (t == "int" || t == "float64" || t == "int64") && n != "seed" && n != "threads" {
+			nums = append(nums, n)
+		}
+	}
+	ctx := sxChoose("context", 1+len(others)+len(bools))
+	switch {
+	case ctx == 0:
+	case ctx <= len(others):
+		g := ref.c.Flags().Lookup(others[ctx-1])
+		args = append(args, "--"+g.Name+"="+g.DefValue)
+		sxDebug("with", "--"+g.Name+"="+g.DefValue)
+	default:
+		args = append(args, "--"+bools[ctx-1-len(others)]+"=true")
+		sxDebug("with", "--"+bools[ctx-1-len(others)]+"=true")
 	}
 	if sxParam("numctx", 0) == 1 {
-		// second context dimension: one other numeric option at twice its default
-		var nums []string
-		ref.c.Flags().VisitAll(func(g *pflag.Flag) {
-			t := g.Value.Type()
-			if (t == "int" || t == "float64" || t == "int64") && g.Name != ref.flag && g.Name != "seed" && g.Name != "threads" {
-				nums = append(nums, g.Name)
-			}
-		})
-		sort.Strings(nums)
 		if k := sxChoose("numcontext", 1+len(nums)); k > 0 {
 			g := ref.c.Flags().Lookup(nums[k-1])
 			v := "3"
 			if x, err := strconv.ParseFloat(g.DefValue, 64); err == nil && x != 0 {
 				v = strconv.FormatFloat(2*x, 'f', -1, 64)
 			}
-			sxAssert(ref.c.Flags().Set(nums[k-1], v) == nil, "numeric option accepts twice its default")
-			sxDebug("and", "--"+nums[k-1]+" "+v)
+			args = append(args, "--"+g.Name+"="+v)
+			sxDebug("and", "--"+g.Name+"="+v)
 		}
 	}
-	treeformat = 0
+	if ref.flag != "seed" {
+		args = append(args, "--seed=7")
+	}
 	sxReach("pair")
-	outA, failA := zzEffectRun(ref.c, dir)
-	sxAssert(ref.c.Flags().Set(ref.flag, f.DefValue) == nil, "the documented default is accepted as a value: "+ref.path+" --"+ref.flag)
-	outB, failB := zzEffectRun(ref.c, dir)
+	outA, failA := zzEffectRun(args, dir, f.DefValue == "stdin")
+	argsB := append(append([]string{}, args...), "--"+ref.flag+"="+f.DefValue)
+	outB, failB := zzEffectRun(argsB, dir, f.DefValue == "stdin")
 	if outA != outB {
 		sxDebug("outA", outA)
 		sxDebug("outB", outB)
